@@ -150,8 +150,8 @@ def run_engines(case):
         out = []
         while len(out_rx._q):  # pylint: disable=protected-access
             m = out_rx.consume() if await out_rx.ready() else None
-            tick = (m.timestamp - E) // timedelta(microseconds=TICK_US)
-            assert E + timedelta(microseconds=TICK_US * tick) == m.timestamp
+            us = (m.timestamp - E) // timedelta(microseconds=1)
+            tick = us // TICK_US if us % TICK_US == 0 else us / TICK_US   # off the tick grid: kept as a float
             if three:
                 out.append([tick] + [None if v is None else int(v.base_value) for v in (m.value_p1, m.value_p2, m.value_p3)])
             else:
@@ -203,6 +203,8 @@ Definition check (c : list (list (list sample) * list (list nat)) * list (Z * li
 
 
 def c_stream(case, g, li):
+    if not case["streams"][g]:
+        return "(@nil sample)"
     return "[" + "; ".join(f"({cZ(t * TICK_US)}, {cZ(value_of(li, k))})" for k, t in enumerate(case["streams"][g])) + "]"
 
 
@@ -211,7 +213,7 @@ def c_engine(case, e):
     ss = "[" + "; ".join(c_stream(case, g, li) for li, g in enumerate(ids)) + "]"
     orders = case.get("orders")
     if orders is None or str(e) not in orders:
-        ords = "[]"
+        ords = "(@nil (list nat))"
     else:
         rounds = max([len(case["streams"][g]) for g in ids] + [0]) + 2
         lst = orders[str(e)]
@@ -221,7 +223,9 @@ def c_engine(case, e):
 
 def case_term(case, obs):
     engs = "[" + "; ".join(c_engine(case, e) for e in range(len(case["eng"]))) + "]"
-    exp = "[" + "; ".join(f"({cZ(o[0] * TICK_US)}, {clist(o[1:])})" for o in obs["out"]) + "]"
+    exp = "[" + "; ".join(f"({cZ(int(o[0] * TICK_US))}, {clist([-1 if v is None else v for v in o[1:]])})" for o in obs["out"]) + "]"
+    if not obs["out"]:
+        exp = "(@nil (Z * list Z))"
     return f"({engs}, {exp})"
 
 
@@ -378,7 +382,7 @@ def gen_three_case(rng, kind):
     case = {"kind": kind, "d": d, "streams": streams, "eng": eng, "orders": None}
     if kind == "three_gaps":
         # a per-phase engine that skips a timestamp (its input has a gap inside the steady state)
-        cand = [g for g in range(len(streams)) if len(streams[g]) > 6]
+        cand = [g for g in range(len(streams)) if len(streams[g]) > 6 and any(ids == [g] for ids in eng)]
         if cand:
             g = rng.choice(cand)
             j = rng.randrange(4, len(streams[g]))
